@@ -1,18 +1,16 @@
 #!/bin/sh
 # Runs every seeded change against the check of the property it breaks (quick tier),
-# each in its own scratch worktree.  Prints one line per change; exit 1 if one that
-# applies is not detected.
+# each in its own scratch worktree, JOBS at a time (default 4).  Prints one line per
+# change; exit 1 if one that applies is not detected.
+# usage: tools/verify_all_seeded.sh [names-file]   (default: every directory under seeded/)
 cd /verif || exit 2
-bad=0
-for d in seeded/*/; do
-  n=$(basename "$d"); p=$(echo "$n" | cut -d- -f1)
-  other=$(python3 -c "import json;print(json.load(open('$d/meta.json')).get('detected_by',''))" 2>/dev/null)
-  [ -n "$other" ] && p=$other
-  out=$(tools/try_patch.sh "$d/patch.diff" "$p" 2>&1 | head -2 | tr '\n' ' ' | cut -c1-170)
-  case "$out" in
-    *"exit=1"*) echo "detected   $n: $out";;
-    *"does not apply"*) echo "no-apply   $n";;
-    *) if grep -q '"expected": "shadowed"' "$d/meta.json"; then echo "shadowed   $n (see meta.json)"; elif grep -q '"expected": "not_detected"' "$d/meta.json"; then echo "undetected $n (documented, see meta.json)"; else echo "MISSED     $n: $out"; bad=1; fi;;
-  esac
-done
-exit $bad
+list=${1:-}
+if [ -z "$list" ]; then
+  list=$(mktemp)
+  ls seeded > "$list"
+fi
+out=$(mktemp)
+xargs -P "${JOBS:-4}" -n 1 tools/verify_one_seeded.sh < "$list" | tee "$out"
+if grep -q '^MISSED' "$out"; then rm -f "$out"; exit 1; fi
+rm -f "$out"
+exit 0
